@@ -91,7 +91,7 @@ def execute(plan, scn):
                 run2, viol2 = _execute_raw(plan, scn, cf="lift_bound")
             finally:
                 restore()
-            if not viol2 and all(_f4_applies(v, run2) for v in viol):
+            if not viol2 and all(_f4_applies(v, run, run2) for v in viol):
                 kf = list(getattr(run, "known_findings", ()))
                 kf.append("F4")
                 run.known_findings = kf
@@ -100,26 +100,29 @@ def execute(plan, scn):
     return run, viol
 
 
-def _f4_applies(v, lifted_run):
+def _f4_applies(v, normal_run, lifted_run):
     """F4 is the *legitimate* give-up regime: the input is too large for the shipped step budget, so even
-    the freshly built reference gives up.  That is the case iff the reference-side outcome itself changes
-    when the budget is lifted.  If the reference is unaffected by the budget, the live side deviated for
-    another reason (for instance a defect that makes the rewriter give up spuriously) and the violation
-    stands.  Decided from recorded outcomes only (no dependence on how a give-up is reported)."""
+    freshly built copies give up.  That is the case iff some reference-side outcome of the run -- up to and
+    including the violating step -- changes when the budget is lifted.  (Before the violating step the live
+    side agreed with the reference, so the recorded outcomes ARE the reference-side outcomes; at the violating
+    step the reference outcome travels with the violation.)  If nothing on the reference side depends on the
+    budget, the live side deviated for another reason -- for instance a defect that makes the rewriter give
+    up spuriously -- and the violation stands.  Decided from recorded outcomes only, not from how a give-up
+    is reported."""
     probe = getattr(v, "f4_probe", None)
-    if not probe:
+    if not probe or probe.get("kind") != "step":
         return True                      # no finer information: fall back to the plain counterfactual
-    if probe["kind"] == "step":
-        for st, out in lifted_run.records:
-            if st is not None and st.get("id") == probe["step"]:
-                return engine.outcome_str(out) != probe["ref"]
-        return False
-    if probe["kind"] == "asx_group":
-        from . import routes
-        lifted = routes.asx_group_trees(lifted_run, probe["key"])
-        # every result handed out under the shipped budget must have been a give-up result
-        return bool(lifted) and not any(t in probe["trees"] for t in lifted)
-    return True
+    lifted = {st.get("id"): engine.outcome_str(out) for st, out in lifted_run.records if st is not None}
+    for st, out in normal_run.records:
+        if st is None:
+            continue
+        sid = st.get("id")
+        ref = probe["ref"] if sid == probe["step"] else engine.outcome_str(out)
+        if sid in lifted and lifted[sid] != ref:
+            return True
+        if sid == probe["step"]:
+            break
+    return False
 
 
 _KNOWN = None
